@@ -297,19 +297,21 @@ theorem match_exhaustive (vs : List (PatName × Nat)) (arms : List ArmHead)
 example : matchReal [(.some, 1), (.none, 0)] [⟨.variant .some (some [0]), false⟩, ⟨.variant .none none, false⟩] = none := by
   decide
 
-/-- **T4 (refutation on the tree).** The documented rules call an arm for a
-    variant that an earlier unguarded arm already covers unreachable; the
-    bookkeeping of `match_expr` only prints a warning and accepts it
-    (`match x { Some(y) => 1, Some(y) => 2, None => 3 }` compiles). Open
-    finding `C07-match-duplicate-variant`. -/
-theorem match_duplicate_variant_accepted :
-    let vs : List (PatName × Nat) := [(.some, 1), (.none, 0)]
-    let arms : List ArmHead :=
+/-- **T4 (unreachable arms).** If `match_expr` accepts, no arm names a variant
+    that an earlier unguarded arm already covers (such an arm can never run);
+    together with `match_exhaustive` (nothing follows an unguarded `_`) no
+    accepted match has an unreachable arm. Whether a repeated variant is an
+    error is read off the source on every run: on the unchanged tree it only
+    printed a warning (`match x { Some(y) => 1, Some(y) => 2, None => 3 }`
+    compiled) — repaired by a `fix:` commit. -/
+theorem match_no_unreachable_arm (vs : List (PatName × Nat)) (arms : List ArmHead)
+    (h : matchReal vs arms = none) : NoRepeatedVariant arms :=
+  matchReal_norepeat vs arms (by decide) h
+
+example :
+    matchReal [(.some, 1), (.none, 0)]
       [⟨.variant .some (some [0]), false⟩, ⟨.variant .some (some [0]), false⟩, ⟨.variant .none none, false⟩]
-    matchReal vs arms = none ∧
-      matchHeads (vs.map fun v => (v.1, List.replicate v.2 Ty.unknown)) arms [] false
-        = some "unreachable-duplicate-variant" := by
-  decide
+      = some .unreachableDuplicate := by decide
 
 /-! ## T5 — declarations -/
 
